@@ -378,7 +378,10 @@ func genC10(tier string, r *rng) {
 	// request side: URL forms, Host override, protocols, extensions, extra headers
 	urls := []string{"ws://example.com", "ws://example.com/", "ws://example.com/chat", "ws://example.com:8080/chat?x=1&y=2", "wss://example.com/a/b/c", "ws://[::1]/x",
 		"ws://[::1]:9000/x", "ws://example.com/chat%20room", "ws://example.com/caf%C3%A9", "ws://example.com/files/a%3Fb?q=%20", "ws://example.com/?", "ws://example.com//double",
-		"ws://user:pw@example.com/p", "ws://example.com/a b", "ws://EXAMPLE.com/A", "ws://example.com/#frag", "/just/path", "ws://example.com/p?q=a+b"}
+		"ws://user:pw@example.com/p", "ws://example.com/a b", "ws://EXAMPLE.com/A", "ws://example.com/#frag", "/just/path", "ws://example.com/p?q=a+b",
+		// an explicit port that is the scheme's default (or the other scheme's), also on IPv6 literals
+		"ws://example.com:80/x", "wss://example.com:443/x", "ws://example.com:443/x", "wss://example.com:80/x",
+		"ws://[::1]:80/chat", "wss://[2001:db8::1]:443/", "wss://[::1]:80/"}
 	reqCfgs := []string{"-", "host@" + hx([]byte("override.example:81")), "proto@" + hx([]byte("a")) + "|" + hx([]byte("b")), extCfgs[2], "hdr@" + hx([]byte("Origin: http://x\r\nX-T: 1\r\n")),
 		"host@" + hx([]byte("h")) + "/proto@" + hx([]byte("chat")) + "/" + extCfgs[1] + "/hdr@" + hx([]byte("X: y\r\n")), "ext@" + hx([]byte("x")) + ":" + hx([]byte("k")) + "=" + hx([]byte("v w\"q"))}
 	for _, u := range urls {
